@@ -130,8 +130,13 @@ func (s *Scope) Scope(name string, opts ...ScopeOption) *Scope {
 	// child copies the parent's graph nodes.
 	for _, node := range s.gh.nodes {
 		child.gh.nodes = append(child.gh.nodes, node)
-		if ctrNode, ok := node.Wrapped.(*constructorNode); ok {
-			ctrNode.CopyOrder(s, child)
+		switch n := node.Wrapped.(type) {
+		case *constructorNode:
+			n.CopyOrder(s, child)
+		case *paramGroupedSlice:
+			// Value group nodes have a position in the child's copy of
+			// the graph as well.
+			n.orders[child] = n.orders[s]
 		}
 	}
 
